@@ -102,6 +102,8 @@ PTAB = {
     "C": {"scalar": "percentBu", "array": "pinNDens", "dict": "pinPercentBu", "none": "massHmBOL", "unset": "zrFrac"},
 }
 KINDS = ("scalar", "array", "dict", "none", "unset")
+# dimension parameters of components (those a component class defines are kept in keep-set 2)
+CDIMS = ("od", "id", "mult", "op", "ip", "widthOuter", "widthInner")
 # keep-sets are sets of parameter *definitions*; here by name per object kind
 KEEPNAMES = [
     {k: [] for k in PTAB},
@@ -111,15 +113,15 @@ KEEPNAMES = [
         "K": ["keffUnc", "beta", "detailedNucKeys", "lastKeff", "fisFrac"],
         "A": ["kInf", "powerDecay", "detailedNDens", "buLimit", "nozzleType"],
         "B": ["power", "mgFlux", "pinLocation", "flux", "THhotChannelCladODT", "height"],
-        "C": ["percentBu", "pinNDens", "pinPercentBu", "massHmBOL", "zrFrac", "temperatureInC", "numberDensities"],
+        "C": ["percentBu", "pinNDens", "pinPercentBu", "massHmBOL", "zrFrac", "temperatureInC", "numberDensities"] + list(CDIMS),
     },
 ]
 # params that are caches of public queries are observed through the query (full observation)
 RAW_EXCL = ("area",)
-MUTS = ("P", "D", "D2", "G", "H", "Q", "S", "L", "W", "CC", "F")
+MUTS = ("P", "D", "D2", "G", "H", "Q", "S", "L", "RL", "W", "CC", "F")
 # objects whose derived quantities (volumes, masses) an operation changes by assignment
-FOOT = {"D": ("C",), "D2": ("C2", "C3"), "H": ("B",), "L": ("C4",), "W": ("C2", "DU")}
-DERIVED_INPUTS = {"temperatureInC", "numberDensities", "height"} | {"od", "id", "op", "ip", "mult"}
+FOOT = {"D": ("C",), "D2": ("C2", "C3"), "H": ("B",), "L": ("C4",), "RL": ("C2",), "W": ("C2", "DU")}
+DERIVED_INPUTS = {"temperatureInC", "numberDensities", "height"} | set(CDIMS)
 
 
 def _kind(o_or_cls):
@@ -191,8 +193,10 @@ class State:
             "DU": B.getComponentByName("duct"),
         }
         for c in A[1]:  # a component with a linked dimension (hex: gap of the plenum block, Cartesian: clad)
-            if any(_islink(getattr(c.p, "_p_" + dn, None)) for dn in c.DIMENSION_NAMES):
+            linked = [dn for dn in c.DIMENSION_NAMES if _islink(getattr(c.p, "_p_" + dn, None))]
+            if linked:
                 self.o["C4"] = c
+                self.ldim = linked[0]
                 break
         self.tainted = False
         self.frozen = False  # makeParametersReadOnly has been called
@@ -218,7 +222,10 @@ def keepdefs(s, obj, ki):
     out = []
     seen = set()
     for x in [obj] + list(obj.iterChildren(deep=True)):
+        defined = {pd.name for pd in x.p.paramDefs}
         for n in KEEPNAMES[ki].get(_kind(x), ()):
+            if n not in defined:
+                continue  # e.g. a dimension this component class does not have
             pd = x.p.paramDefs[n]
             if id(pd) not in seen:
                 seen.add(id(pd))
@@ -445,27 +452,52 @@ def _assign(p, name, v, how):
         p.update({name: v})
 
 
+# Every operation derives its next values from the *current* state (never from how often it ran):
+# histories that reach the same state have the same futures, whichever is met first.
+
+
+def _gen(v, base, step):
+    """How many steps of ``step`` the number v lies above ``base`` (0 for anything else)."""
+    if isinstance(v, (int, float, np.integer, np.floating)) and not isinstance(v, bool) and v > base - 0.5 * step:
+        return int(round((float(v) - base) / step))
+    return 0
+
+
+# names that also exist on other object types: the keep-sets name them for ONE type only, every
+# other level is assigned too and must be restored
+XNAMES = ("kInf", "power", "percentBu", "massHmBOL", "buLimit", "powerDecay", "detailedNDens", "buRate")
+
+
 def mut_P(s):
-    n = s.n("P")
+    b0 = _val("scalar", PTARGETS.index("B"), 0, s.seed)
+    n = _gen(s.o["B"].p.power, b0, 1.0) + 1
+    s.n("P")
     for ti, t in enumerate(PTARGETS):
         o = s.o[t]
         tab = PTAB[_kind(o)]
         for j, kind in enumerate(KINDS):
             _assign(o.p, tab[kind], _val(kind, ti, n, s.seed), (ti + j + n) % 3)
+        own = set(tab.values())
+        defined = {pd.name for pd in o.p.paramDefs}
+        for j, xn in enumerate(XNAMES):
+            if xn in defined and xn not in own:
+                _assign(o.p, xn, _val("scalar", 20 + 10 * ti + j, n, s.seed), (ti + j + n) % 3)
 
 
 def mut_D(s):
-    n = s.n("D")
-    f = 1.0 + 0.03 * n + 0.001 * s.seed
+    s.n("D")
     C = s.o["C"]
+    n = _gen(C.temperatureInC, 600.0 + s.seed, 11.0) + 1
+    f = 1.0 + 0.03 * n + 0.001 * s.seed
     C.setNumberDensity("U235", 0.004 * f)
     C.setTemperature(600.0 + 11.0 * n + s.seed)
 
 
 def mut_D2(s):
-    n = s.n("D2")
-    f = 1.0 + 0.03 * n + 0.001 * s.seed
+    s.n("D2")
     C2, C3 = s.o["C2"], s.o["C3"]
+    n = _gen(C2.temperatureInC, 470.0 + s.seed, 7.0) + 1
+    f = 1.0 + 0.03 * n + 0.001 * s.seed
     C2.setTemperature(470.0 + 7.0 * n + s.seed)
     C2.setNumberDensity("FE", 0.07 * f)
     C3.setNumberDensity("ZR", 0.009 * f)
@@ -486,19 +518,20 @@ def _chpitch(g, d):
 def mut_G(s):
     """Every public mutator of the arrays a grid back-up refers to: pitch (unit steps, and for an
     offset Cartesian grid the offset), the offset setter; bounds are H's business."""
-    n = s.n("G")
+    s.n("G")
     g = s.o["K"].spatialGrid
-    _chpitch(g, 1.25 + 0.125 * n + 0.01 * s.seed)
-    if n % 2 == 0:
-        g.offset = np.array(g.offset) + np.array([0.5 * n, 0.25 * n, 0.0])
+    _chpitch(g, 1.25 + 0.01 * s.seed)
+    g.offset = np.array(g.offset) + np.array([0.5, 0.25, 0.0])
     pg = s.o["B"].spatialGrid
-    if pg is not None:
-        _chpitch(pg, 0.0625 + 0.001 * n + 0.001 * s.seed)
+    if pg is not None and pg is not g:
+        _chpitch(pg, 0.0625 + 0.001 * s.seed)
 
 
 def mut_H(s):
-    n = s.n("H")
-    s.o["B"].setHeight(25.0 + 2.0 * n + 0.125 * s.seed)
+    s.n("H")
+    B = s.o["B"]
+    n = _gen(B.getHeight(), 25.0 + 0.125 * s.seed, 2.0) + 1
+    B.setHeight(25.0 + 2.0 * n + 0.125 * s.seed)
 
 
 def mut_Q(s):
@@ -519,29 +552,48 @@ def mut_Q(s):
 
 
 def mut_S(s):
-    n = s.n("S")
+    s.n("S")
+    a = s.o["B"].p.mgFlux
+    n = (len(a) - 3 if isinstance(a, np.ndarray) and a.ndim == 1 and len(a) >= 3 else 0) + 1
     s.o["B"].p.mgFlux = np.arange(3 + n, dtype=float) + 0.5 * s.seed
     s.o["C"].p.pinNDens = np.ones((n + 1, 2)) * (n + s.seed)
 
 
+def _plainnum(v):
+    return isinstance(v, (int, float, np.integer, np.floating)) and not isinstance(v, bool)
+
+
 def mut_L(s):
-    n = s.n("L")
+    """A linked dimension is replaced by a number (setDimension); a plain dimension of the same
+    component is changed by setDimension too."""
+    s.n("L")
     c = s.o["C4"]
-    for dn in c.DIMENSION_NAMES:
-        if _islink(getattr(c.p, "_p_" + dn, None)) or s.counts.get("L:" + c.name) == dn:
-            s.counts["L:" + c.name] = dn  # the same dimension every time
-            c.setDimension(dn, 0.5 + 0.01 * n + 0.001 * s.seed)
-            return
-    raise RuntimeError("no linked dimension to replace")
+    dn = s.ldim  # the dimension that was a link when the reactor was built
+    cur = getattr(c.p, "_p_" + dn, None)
+    n = (_gen(cur, 0.5 + 0.001 * s.seed, 0.01) if _plainnum(cur) else 0) + 1
+    c.setDimension(dn, 0.5 + 0.01 * n + 0.001 * s.seed)
+    for d2 in c.DIMENSION_NAMES:
+        v = getattr(c.p, "_p_" + d2, None)
+        if d2 != dn and d2 not in ("mult", "modArea") and _plainnum(v):
+            c.setDimension(d2, float(v) + 0.001)
+            break
+
+
+def mut_RL(s):
+    """Re-link: a plain dimension becomes a link (and moves on to another link target next time)."""
+    s.n("RL")
+    C, C2 = s.o["C"], s.o["C2"]
+    cur = getattr(C2.p, "_p_id", None)
+    C2.setLink("id", C, "id" if _islink(cur) and cur[1] == "od" else "od")
 
 
 def mut_W(s):
     """Raw dimension assignments (no cache is invalidated by them)."""
-    n = s.n("W")
-    s.o["C2"].p.od = 1.09 + 0.002 * n + 0.0001 * s.seed
+    s.n("W")
+    s.o["C2"].p.od = float(s.o["C2"].p.od) + 0.002
     du = s.o["DU"]
     dn = "op" if "op" in du.DIMENSION_NAMES else "widthOuter"
-    du.p[dn] = du.p[dn] - 0.01 * n
+    du.p[dn] = du.p[dn] - 0.01
 
 
 def mut_CC(s):
@@ -560,7 +612,7 @@ def mut_F(s):
     makeParametersReadOnly(s.r)
 
 
-MUTF = {"P": mut_P, "D": mut_D, "D2": mut_D2, "G": mut_G, "H": mut_H, "Q": mut_Q, "S": mut_S, "L": mut_L, "W": mut_W, "CC": mut_CC, "F": mut_F}
+MUTF = {"P": mut_P, "D": mut_D, "D2": mut_D2, "G": mut_G, "H": mut_H, "Q": mut_Q, "S": mut_S, "L": mut_L, "W": mut_W, "CC": mut_CC, "F": mut_F, "RL": mut_RL}
 
 # ---------------------------------------------------------------------------------------------
 # violation keys from observation differences
@@ -1012,7 +1064,8 @@ def _flagobs(s):
     for t in PTARGETS + ("C3",):
         o = s.o[t]
         out.append(int(o.p.assigned))
-        for n in sorted(set(KEEPNAMES[2].get(_kind(o), ()))):
+        defined = {pd.name for pd in o.p.paramDefs}
+        for n in sorted(set(KEEPNAMES[2].get(_kind(o), ())) & defined):
             out.append(int(o.p.paramDefs[n].assigned))
     return observe.digest(out)
 
@@ -1197,7 +1250,7 @@ def _quick_family():
     out.append((H, [["A", 2], ["B", 0]], ["G", "H", "Q"]))
     out.append((H, [["B", 0], ["B", 0]], ["G", "H", "Q"]))
     out.append((H, [["B", 0], ["C", 0]], ["D", "D2", "Q"]))
-    out.append((H, [["A", 2], ["B", 2]], ["S", "L"]))
+    out.append((H, [["A", 2], ["B", 2]], ["S", "L", "RL"]))
     out.append((Cq, [["R", 1], ["B", 0]], ["L", "Q"]))
     # cold and warm caches, raw dimension assignment followed by queries inside the scope
     out.append((H, [["B", 0], ["C", 0]], ["W", "CC", "Q"]))
@@ -1256,7 +1309,7 @@ def scenarios(ctx):
         for ks in ((0, 0, 0), (1, 2, 0)):
             sc("r2", [[o, k] for o, k in zip(tri, ks)], ["P", "G"], wide)
     for ka, kc in ((2, 2), (0, 2), (2, 0), (1, 1)):
-        sc("r2", [["A", ka], ["B", kc]], ["S", "L"], wide)
+        sc("r2", [["A", ka], ["B", kc]], ["S", "L", "RL"], wide)
         sc("cq" if ka == kc else "r2", [["R", ka], ["B", kc]], ["L", "Q"], wide)
     return out
 
